@@ -205,9 +205,9 @@ class Emitter:
 	if x == nil {
 		return
 	}
-	w.region(unsafe.Pointer(x), int(unsafe.Sizeof(*x)), int(unsafe.Alignof(*x)), int(unsafe.Sizeof(*x)), true, name, false)
+	w.region(unsafe.Pointer(x), int(unsafe.Sizeof(*x)), int(unsafe.Alignof(*x)), int(unsafe.Sizeof(*x)), %s, name, false)
 	walkS_%s(x, w, name)
-}''' % (h, sd.name, sd.name))
+}''' % (h, sd.name, 'true' if has_ptr(('struct', sd, False)) else 'false', sd.name))
             else:
                 o.append('func fill_%s(p *%s, name string, depth int) { fillS_%s(p, name, depth+1) }' % (h, sd.name, sd.name))
                 o.append('func ref_%s(x %s) *RVal { return refS_%s(&x) }' % (h, sd.name, sd.name))
@@ -287,7 +287,7 @@ class Emitter:
             nc = 'true' if f.nocopy else 'false'
             if f.ptr:
                 gt = go_type(f.typ)
-                hp = 'true' if f.typ[0] in ('string',) else 'false'
+                hp = 'true' if f.typ[0] in ('string', 'binary') else 'false'
                 lines.append('\tif p.%s != nil {\n\t\tw.region(unsafe.Pointer(p.%s), int(unsafe.Sizeof(*p.%s)), int(unsafe.Alignof(*p.%s)), int(unsafe.Sizeof(*p.%s)), %s, name+".%s", false)\n\t\twalk_%s(*p.%s, w, name+".%s", %s)\n\t}' % (
                     f.name, f.name, f.name, f.name, f.name, hp, f.name, h, f.name, f.name, nc))
             else:
